@@ -104,6 +104,13 @@ def _swapargs(e):
     return None
 
 
+def _appendout(e):
+    if e.get('eval') == 'ok' and e.get('wellformed'):
+        e['out'] = e['out'] + [33]
+        return e
+    return None
+
+
 PROPS = {
     'C11': dict(
         tv=dict(module='ScannerTrace', cfg='ScannerTrace.cfg'),
@@ -165,6 +172,13 @@ PROPS = {
         tv=dict(module='ExprEvalTrace', cfg='ExprEvalTrace.cfg'),
         mc=[],
         corrupt=[('swap operands of a recorded application', _swapargs)],
+        exhaustive_part=True,
+        harness_prefix='HARNESS:',
+    ),
+    'C10': dict(
+        tv=dict(module='MustacheTrace', cfg='MustacheTrace.C10.cfg'),
+        mc=[],
+        corrupt=[('append a character to the rendering', _appendout)],
         exhaustive_part=True,
         harness_prefix='HARNESS:',
     ),
@@ -280,5 +294,18 @@ DOC = {
              'it (RefParse(tokens) = PostOrder(tree)). Operator semantics are C06\'s subject and deliberately uninterpreted here; LIKE has no '
              'variant operation and must yield an error. A lexer disagreement is C13\'s subject and skipped here.',
         technique='TLA+ evaluation-wiring spec (ExprEval.Wire) + TLC trace validation of the real calculator instrumented through its public operation/function interfaces',
+    ),
+    'C10': dict(
+        level='Mustache.tla gives the reference semantics over templates as lexeme sequences: a three-valued recogniser MParse (well '
+              'formed / one of the malformations the property lists / not spoken about) and Render (text verbatim, variables, JSON-style '
+              'escaping, sections and inverted sections by presence and non-emptiness, names folded). The real MustacheTemplate is driven '
+              'with random well-formed templates of any depth in every spelling (#, #if, ^, #unless, close by name, /if, /unless, double '
+              'and triple braces, inner spacing) x random variable maps with arbitrary letter case and Unicode values, all small templates '
+              'x four maps, every lexeme string up to the bound over the 12-lexeme alphabet, and lexeme-level mutations; MustacheTrace.tla '
+              'checks accept/reject against MParse and the rendering against Render.',
+        note='Trusted: TLC, Json module, recorder, and the generator only as far as TLC validates it (well-formed cases must parse as such '
+             'in the specification). Left open: leading/trailing whitespace of the template (trimmed by the engine, avoided by the '
+             'generator), case-insensitively colliding keys, closing by a name differing only in case, quoted strings inside tags.',
+        technique='TLA+ reference semantics (Mustache.MParse/Render) + TLC trace validation of generated templates x variable maps and exhaustive lexeme strings',
     ),
 }
